@@ -11,6 +11,14 @@ import copy, sys, traceback, random, math
 def build(spec, torch, nn):
     g = torch.Generator().manual_seed(spec['seed'])
 
+    def dead_channels(w, L):
+        """output channels whose weights are all tiny but non-zero ('tiny': [[channel, magnitude], ...], magnitudes
+        1e-10..1e-7) or exactly zero ('zero': [channel, ...]) next to the ordinary ones"""
+        for ch, mag in (L.get('tiny') or []):
+            w[ch % w.shape[0]] = torch.randn(w.shape[1:], generator=g) * mag
+        for ch in (L.get('zero') or []):
+            w[ch % w.shape[0]] = 0.0
+
     class Net(nn.Module):
         def __init__(self):
             super().__init__()
@@ -25,6 +33,7 @@ def build(spec, torch, nn):
                     conv.weight.copy_((torch.rand(conv.weight.shape, generator=g) - 0.5) * 2 * L.get('wmag', 0.5))
                     if L['bias']:
                         conv.bias.copy_((torch.rand(cout, generator=g) - 0.5) * 2 * L.get('bmag', 0.5))
+                    dead_channels(conv.weight, L)
                 setattr(self, 'c%d' % i, conv)
                 self.order.append('c%d' % i)
                 if L['bn']:
@@ -60,6 +69,7 @@ def build(spec, torch, nn):
                         fc0.weight.copy_((torch.rand(fc0.weight.shape, generator=g) - 0.5) * 2 * 0.4)
                         if fc0.bias is not None:
                             fc0.bias.copy_((torch.rand(H['hidden'], generator=g) - 0.5) * 2 * H.get('bmag', 0.5))
+                        dead_channels(fc0.weight, {'tiny': H.get('hidden_tiny'), 'zero': H.get('hidden_zero')})
                     self.fc0 = fc0
                     self.rfc0 = nn.ReLU()
                     self.order += ['fc0', 'rfc0']
@@ -69,6 +79,7 @@ def build(spec, torch, nn):
                     fc.weight.copy_((torch.rand(fc.weight.shape, generator=g) - 0.5) * 2 * 0.4)
                     if H['bias']:
                         fc.bias.copy_((torch.rand(H['out'], generator=g) - 0.5) * 2 * H.get('bmag', 0.5))
+                    dead_channels(fc.weight, H)
                 self.fc = fc
                 self.order.append('fc')
 
@@ -311,7 +322,7 @@ def _observe(spec, st):
             YI = Yi.double().transpose(0, 1).reshape(C, -1)
             YF = Yf.double().transpose(0, 1).reshape(C, -1)
             npos = A.shape[1]
-            chans = list(range(C)) if C <= 6 else sorted(rng.sample(range(C), 6))
+            chans = list(range(C)) if C <= 6 else sorted({0, 1, 2} | set(rng.sample(range(3, C), 3)))
             rec['chans'] = chans
             rec['samples'] = []
             for c in chans:
